@@ -183,12 +183,25 @@ def r3_bom(ctx):
                     r = ret_of(p)
                     if r is None or r[0] != "agg" or r[2] != "Some":
                         continue
-                    sw = [c for c in calls(p) if name_is(c[2], "starts_with")]
-                    last = sw[-1][3][1]
-                    lit = bytes_literal(last)
+                    # the signature this exit requires: the literal of the starts_with test that succeeded, or the
+                    # bytes a slice pattern `[a, b, c, d, ..]` compared position by position
+                    lit = None
+                    for e in p:
+                        if e[0] == "switch" and call_is(e[2], "starts_with") and e[3] != 0:
+                            last = e[2][3][1]
+                            lit = bytes_literal(last)
+                            if lit is None:
+                                a = strip_wrappers(last)
+                                lit = bytes(x[2] for x in a[1]) if a[0] == "array" else None
                     if lit is None:
-                        a = strip_wrappers(last)
-                        lit = bytes(x[2] for x in a[1]) if a[0] == "array" else None
+                        sig = {}
+                        for e in p:
+                            if e[0] == "switch" and e[2][0] == "pl" and root_of(e[2])[0] == "arg" and root_of(e[2])[2] == "bytes" and isinstance(e[3], int) and not isinstance(e[3], bool):
+                                ci = [x for x in e[2][2] if isinstance(x, tuple) and x[0] == "ci"]
+                                if ci and not ci[-1][2]:
+                                    sig[ci[-1][1]] = e[3]
+                        if sig and sorted(sig) == list(range(len(sig))):
+                            lit = bytes(sig[i] for i in range(len(sig)))
                     tup = r[3][0]
                     enc = str(tup[1][0])
                     name = "UTF_16BE" if "UTF_16BE" in enc else "UTF_16LE" if "UTF_16LE" in enc else "UTF_8" if "UTF_8" in enc else "?"
